@@ -67,9 +67,9 @@ def _unesc(s):
     return s.replace('\\"', '"').replace("\\\\", "\\")
 
 
-def field_writes(prog, fnkey, mods, param=1):
+def field_writes(prog, fnkey, mods, param=1, body=None):
     """[(field path, op, bb)] writes to fields of parameter `param` by fnkey, including through local callees."""
-    b = prog.body(fnkey)
+    b = body if body is not None else prog.body(fnkey)
     out = []
     for w in direct_writes(b):
         if w["root"].k != "arg" or w["root"].a[0] != param:
@@ -83,3 +83,29 @@ def field_writes(prog, fnkey, mods, param=1):
                 if root.k == "arg" and root.a[0] == param:
                     out.append((fields, via, w["bb"], w))
     return out
+
+
+def parser_fields(prog):
+    """{field name: 'phonetic' | 'regex'} by the okkhor constructor that initialises the field."""
+    out = {}
+    for k, f in prog.fns.items():
+        if f.get("kind") == "Closure":
+            continue
+        b = prog.body(k)
+        ret = strip_refs(b.expr_local(0))
+        if ret.k == "agg" and str(ret.a[0]).startswith("adt:") and ret.t and "fields" in ret.t:
+            for fname, op in zip(ret.t["fields"], ret.a[1]):
+                o = strip_refs(op)
+                if o.k == "call" and o.a[0].endswith("Parser::new_phonetic"):
+                    out[fname] = "phonetic"
+                elif o.k == "call" and "Parser" in o.a[0] and "new_regex" in o.a[0]:
+                    out[fname] = "regex"
+    return out
+
+
+def is_phonetic_parser(prog, e):
+    spx = self_path(e)
+    if spx is None:
+        r, f = apath(e)
+        spx = f
+    return bool(spx) and parser_fields(prog).get(spx[-1]) == "phonetic"
